@@ -112,6 +112,23 @@ def run(pid, tier, seed, replay=None):
                     new.append(("%s fired in history %s of a Popen" % (v, r["id"]), path))
         tv_states += pstates
         popen_part = {"histories_of_a_popen_with_virtual_child": len(pres), "note": pnote}
+        # a launch that fails after the fork has started a child too: it must be reaped before create() returns
+        from . import c_spawn, spawn_scen
+        os.makedirs(spawn_scen.SP, exist_ok=True)
+        os.chmod(spawn_scen.SP, 0o777)
+        fscs = [x for x in spawn_scen.fam_faults(seed, False) if (x.get("fault") or {}).get("side") == 1][::2]
+        fscs += spawn_scen.fam_alloc(seed, False)[1::2][:6]
+        fres, fstates, fblk, fnote = c_spawn.run_raw(fscs, "C12fail")
+        fby = {x["id"]: x for x in fscs}
+        for r in fres:
+            for v in r["viol"]:
+                if v.startswith("C12_") and v not in pseen:
+                    pseen.add(v)
+                    path = save_replay(pid, {"property": pid, "monitor": v, "signature": v + "/failed-launch", "engine": "spawn",
+                                             "scenario": fby[r["id"]], "trace": [json.loads(x) for x in fblk[r["id"]]][:300]})
+                    new.append(("%s fired in launch %s" % (v, r["id"]), path))
+        tv_states += fstates
+        popen_part["failed_launches"] = len(fres)
     nontrivial = set(r["id"] for r in results if any('"n":"fork"' in ln for ln in blk[r["id"]]))
     samples = [{"scenario": by_id[i], "events": [json.loads(x) for x in blk[i] if '"e":"sys"' not in x][:6]}
                for i in list(blk)[:2]]
